@@ -97,6 +97,25 @@ def main():
                     x: object
                     y: object
                 return D, P, None
+            def none_over_wrapper(tc=tc):
+                # jaxtyped(typechecker=None) stacked on an ORDINARY decorator (functools.wraps, changes the result): switched off, the stack
+                # still behaves like the stack without jaxtyped
+                import functools
+                f, calls = mk_plain()
+                def doubling(fn):
+                    @functools.wraps(fn)
+                    def w(*a, **k):
+                        return fn(*a, **k) * 2 + 1
+                    return w
+                return jaxtyped(typechecker=None)(doubling(f)), doubling(f), calls
+            kinds["none_over_wrapper-" + tcn] = none_over_wrapper
+            def old(tc=tc):
+                f, calls = mk_plain(); return jaxtyped(tc(f)), f, calls          # the legacy spelling @jaxtyped @typechecker
+            def none(tc=tc):
+                f, calls = mk_plain(); return jaxtyped(typechecker=None)(f), f, calls
+            kinds["old-" + tcn] = old
+            if tcn == "typeguard":
+                kinds["none-plain"] = none
             kinds["new-" + tcn] = new; kinds["ntc_above-" + tcn] = ntc_above; kinds["ntc_below-" + tcn] = ntc_below
             kinds["method-" + tcn] = method; kinds["dataclass-" + tcn] = dc
 
@@ -203,6 +222,23 @@ def main():
         else:
             envres.append("ValueError" if "ValueError" in p.stderr else "Other")
     out["env"] = envres
+    # the environment variable and config.update() in sequence: the LAST writer wins, in both directions
+    PROG = ("import numpy as np, jaxtyping, typeguard\nfrom jaxtyping import config, jaxtyped, Float\n"
+            "@jaxtyped(typechecker=typeguard.typechecked)\ndef f(x: Float[np.ndarray, 'a'], y: Float[np.ndarray, 'a']):\n    return 0\n"
+            "def t():\n    try:\n        f(np.zeros(2, 'float32'), np.zeros(3, 'float32')); return 'returns'\n    except Exception as e:\n        return type(e).__name__\n"
+            "r = [config.jaxtyping_disable, t()]\nconfig.update('jaxtyping_disable', %s)\nr += [config.jaxtyping_disable, t()]\n"
+            "config.update('jaxtyping_disable', %s)\nr += [config.jaxtyping_disable, t()]\nprint('SEQ', r)\n")
+    seq = []
+    for v, first, second in (("1", "False", "True"), ("true", "'0'", "'TRUE'"), ("0", "True", "False"), ("", "True", "'false'")):
+        env = dict(os.environ)
+        if v:
+            env["JAXTYPING_DISABLE"] = v
+        else:
+            env.pop("JAXTYPING_DISABLE", None)
+        p = subprocess.run([sys.executable, "-c", PROG % (first, second)], env=env, capture_output=True, text=True)
+        line = [l for l in p.stdout.splitlines() if l.startswith("SEQ ")]
+        seq.append({"env": v, "updates": [first, second], "got": line[-1][4:] if line else "X:" + p.stderr[-200:]})
+    out["env_then_update"] = seq
     print(json.dumps(out))
 
 
